@@ -18,7 +18,7 @@ Requirements for the change:
 
 Deliverables — write all three into {wt}/seeded_out/ (create it):
 - patch.diff: output of `git -C {wt} diff -- pennylane` (the change only)
-- demo.py: a standalone script (run as `PYTHONPATH=<repo root> /venv/bin/python demo.py`) that exits 0 and prints PASS on the unmodified baseline, and exits 1 and prints FAIL (with the observed vs expected values) when the change is applied. Verify both (use `git stash` / `git stash pop` in the worktree, or apply the patch in reverse).
+- demo.py: a standalone script (run as `PYTHONPATH=<repo root> /venv/bin/python demo.py`) that exits 0 and prints PASS on the unmodified baseline, and exits 1 and prints FAIL (with the observed vs expected values) when the change is applied. Verify both by saving the diff and using `git apply -R seeded_out/patch.diff` / `git apply seeded_out/patch.diff` in YOUR worktree. NEVER use `git stash` (the stash is shared between all worktrees of the repository and other people are working in sibling worktrees).
 - meta.json: {{"property": "{pid}", "summary": "<one sentence: what was changed>", "files": ["pennylane/..."], "needs_to_manifest": "<the specific input / sequence / schedule needed>", "why_tests_pass": "<why the pinned suite cannot see it>", "ran": ["<commands you ran and their outcomes, incl. doctest pass counts before/after and demo results before/after>"]}}
 
 Leave the change APPLIED in the worktree when you finish. Reply with a short summary: what you changed (file:line), what it needs to manifest, demo outcome before/after, doctest counts before/after. Be honest — if you could not make the tests pass or the demo discriminate, say so.""")
